@@ -94,7 +94,7 @@ impl Schedule {
         let mut maintenance_violation = self.maintenance_violation;
         let mut costs = self.costs;
 
-        let vehicle_id = VehicleIdx::vehicle_from(self.vehicle_counter as Idx);
+        let vehicle_id = VehicleIdx::vehicle_from(Schedule::next_free_idx(self.vehicle_counter)?);
         let tour = Tour::new(nodes, self.network.clone())?;
         let vehicle = Vehicle::new(vehicle_id, vehicle_type_idx, self.network.vehicle_types());
 
@@ -201,7 +201,7 @@ impl Schedule {
             self.add_dummy_tour(
                 &mut dummy_tours,
                 &mut dummy_ids_sorted,
-                VehicleIdx::dummy_from(self.vehicle_counter as Idx),
+                VehicleIdx::dummy_from(Schedule::next_free_idx(self.vehicle_counter)?),
                 dummy_tour,
             );
             vehicle_counter += 1;
@@ -395,7 +395,7 @@ impl Schedule {
                     self.add_dummy_tour(
                         &mut dummy_tours,
                         &mut dummy_ids_sorted,
-                        VehicleIdx::dummy_from(self.vehicle_counter as Idx),
+                        VehicleIdx::dummy_from(Schedule::next_free_idx(self.vehicle_counter)?),
                         new_dummy_tour,
                     );
                     vehicle_counter += 1;
@@ -588,7 +588,7 @@ impl Schedule {
             if let Ok(new_dummy_tour) = Tour::new_dummy(new_path, self.network.clone()) {
                 // removed nodes contain service trips, so add a dummy tour
 
-                let new_dummy = VehicleIdx::dummy_from(vehicle_counter as Idx);
+                let new_dummy = VehicleIdx::dummy_from(Schedule::next_free_idx(vehicle_counter)?);
                 new_dummy_opt = Some(new_dummy);
                 vehicle_counter += 1;
 
@@ -877,6 +877,20 @@ impl Schedule {
 
 // private methods
 impl Schedule {
+    /// Index of the next vehicle or dummy. Indices are handed out once and never reused, so a
+    /// schedule can create at most Idx::MAX + 1 of them.
+    /// # Errors
+    /// If all indices have been handed out an error is returned.
+    fn next_free_idx(vehicle_counter: usize) -> Result<Idx, String> {
+        if vehicle_counter > Idx::MAX as usize {
+            return Err(format!(
+                "Cannot create another vehicle or dummy: all {} indices have been handed out.",
+                vehicle_counter
+            ));
+        }
+        Ok(vehicle_counter as Idx)
+    }
+
     /// Delete dummy vehicle (and its tour) from schedule.
     fn delete_dummy(&self, dummy: VehicleIdx) -> Result<Schedule, String> {
         if !self.is_dummy(dummy) {
